@@ -1550,3 +1550,87 @@ func runR68(c *Ctx) {
 		}
 	}
 }
+
+// ---- R72: a reused buffer filled by index is written on every iteration ----
+
+func init() {
+	register(&Rule{ID: "R72", Name: "BUFFER-FULL-WRITE", Floor: 20,
+		Text: "in the column packages and the root package, a loop that fills a slice by the loop's own key (`for i := range X { R[i] = ... }`) either fills a slice freshly allocated in the function (zero-initialised: skipped elements are zero/null), or stores R[i] on every path through the iteration (no path from the loop body to the next iteration avoids all stores to R[i]): a buffer that is reused between calls or groups keeps the previous call's values in the elements an iteration skips",
+		Run:  runR72})
+}
+
+func runR72(c *Ctx) {
+	p := c.P
+	scope := append([]string{""}, columnPkgs...)
+	for _, pkg := range scope {
+		for _, fn := range p.FuncsIn(pkg) {
+			loops := loopsOf(fn)
+			if len(loops) == 0 {
+				continue
+			}
+			fnm := fname(fn)
+			type grp struct {
+				li     *loopInfo
+				target ssa.Value
+			}
+			stores := map[grp][]*ssa.Store{}
+			eachInstr(fn, func(in ssa.Instruction) {
+				st, ok := in.(*ssa.Store)
+				if !ok {
+					return
+				}
+				ia, ok := st.Addr.(*ssa.IndexAddr)
+				if !ok {
+					return
+				}
+				if _, isSlice := ia.X.Type().Underlying().(*types.Slice); !isSlice || isBoolIndex(ia.X.Type()) {
+					return // the boolean row index is an accumulator: filter kernels skip rows already decided (R3)
+				}
+				for i := range loops {
+					li := &loops[i]
+					if li.key == nil || li.key != ia.Index || !inLoop(*li, in.Block()) {
+						continue
+					}
+					g := grp{li, ia.X}
+					stores[g] = append(stores[g], st)
+				}
+			})
+			for g, sts := range stores {
+				key := fnm + "|fill " + accessPath(g.target)
+				pos := p.instrPos(sts[0])
+				if freshSlice(g.target, map[ssa.Value]bool{}) {
+					c.okTrivial(key, pos, "the slice is allocated in this function: skipped elements are zero")
+					continue
+				}
+				isStore := func(b *ssa.BasicBlock) bool {
+					for _, st := range sts {
+						if st.Block() == b {
+							return true
+						}
+					}
+					return false
+				}
+				// body entry: the successor of the header that stays in the loop
+				skipped := false
+				for _, succ := range g.li.header.Succs {
+					if !inLoop(*g.li, succ) || succ == g.li.header {
+						continue
+					}
+					for _, b := range reachableAvoiding(succ, func(b *ssa.BasicBlock) bool { return isStore(b) || !inLoop(*g.li, b) && b != g.li.header }) {
+						if b == g.li.header {
+							skipped = true
+						}
+					}
+				}
+				if isStore(g.li.header) {
+					skipped = false
+				}
+				if skipped {
+					c.bad(key, pos, fmt.Sprintf("%s may be a buffer handed in by the caller (not allocated here) and an iteration can reach the next one without storing element [key]: that element keeps what an earlier call or group left there", accessPath(g.target)))
+				} else {
+					c.ok(key, pos, "not allocated here, but every iteration stores its element")
+				}
+			}
+		}
+	}
+}
